@@ -27,7 +27,7 @@ CONFIG = {
 
 OBJ_KINDS = ['makespan', 'flowtime', 'priorities', 'start_latest', 'greatest_start', 'indicator_min', 'indicator_max',
              'bounded_min', 'bounded_min_tight', 'bounded_min_tight', 'bounded_max', 'bounded_max', 'multi', 'multi_weighted',
-             'weighted_tradeoff', 'optional_bound']
+             'weighted_tradeoff', 'optional_bound', 'weight_zero']
 
 
 # ----------------------------------------------------------------------------------------------
@@ -166,6 +166,7 @@ def add_objectives(ps, im, kinds, r):
             wb = ps.FixedDurationTask(name='WB', duration=2)
             ps.TasksDontOverlap(task_1=wa, task_2=wb)
             ind = ps.IndicatorFromMathExpression(name='EndWB', expression=wb._end)
+            pb._verif_declared = [(wa._end, 3), (wb._end, 1)]
             if r.random() < 0.5:
                 ps.Objective(name='RawEndWA', target=wa._end, weight=3, kind='minimize')
                 ps.ObjectiveMinimizeIndicator(target=ind, weight=1)
@@ -173,11 +174,23 @@ def add_objectives(ps, im, kinds, r):
                 # the dominating weight on the objective declared second
                 ps.ObjectiveMinimizeIndicator(target=ind, weight=1)
                 ps.Objective(name='RawEndWA', target=wa._end, weight=3, kind='minimize')
+        elif k == 'weight_zero':
+            # WA and WB cannot overlap; only the end of WA counts (weight 0 on the end of WB): WA runs first
+            wa = ps.FixedDurationTask(name='WA', duration=3)
+            wb = ps.FixedDurationTask(name='WB', duration=2)
+            ps.TasksDontOverlap(task_1=wa, task_2=wb)
+            inda = ps.IndicatorFromMathExpression(name='EndWA', expression=wa._end)
+            indb = ps.IndicatorFromMathExpression(name='EndWB', expression=wb._end)
+            ps.ObjectiveMinimizeIndicator(target=indb, weight=0)
+            ps.ObjectiveMinimizeIndicator(target=inda, weight=1)
+            pb._verif_declared = [(wb._end, 0), (wa._end, 1)]
         elif k == 'multi_weighted':
             # weighted sum of a raw expression objective and an indicator objective
-            ps.Objective(name='RawEnd', target=tasks[0]._end, weight=r.choice([2, 3]), kind='minimize')
+            w1, w2 = r.choice([2, 3]), r.choice([0, 1, 2])       # a weight of 0 switches an objective off
+            ps.Objective(name='RawEnd', target=tasks[0]._end, weight=w1, kind='minimize')
             ind = ps.IndicatorFromMathExpression(name='LastStart', expression=tasks[-1]._start)
-            ps.ObjectiveMinimizeIndicator(target=ind, weight=r.choice([1, 2]))
+            ps.ObjectiveMinimizeIndicator(target=ind, weight=w2)
+            pb._verif_declared = [(tasks[0]._end, w1), (tasks[-1]._start, w2)]
 
 
 def run_case(args):
@@ -311,7 +324,8 @@ def builtin_value(case, several, z3):
         if several:
             if len({o.kind for o in objs}) > 1:
                 return 'skip'
-            expr = z3.Sum([o.weight * o._target for o in objs])
+            decl = getattr(im.pb, '_verif_declared', None)
+            expr = z3.Sum([w_ * t_ for t_, w_ in decl]) if decl else z3.Sum([o.weight * o._target for o in objs])
         else:
             expr = objs[0]._target
         return solver._model.eval(expr, model_completion=True).as_long()
@@ -497,7 +511,9 @@ def analyse(out, case, solver, tasks, varlist, outs, marks, sp, z3):
                 objs_decl = list(solver.problem.objectives.values())
                 own = None
                 if len([o2 for o2 in objs_decl if o2.name != 'MinimizeEquivalentObjective']) > 1:
-                    own = z3.Sum([o2.weight * o2._target for o2 in objs_decl if o2.name != 'MinimizeEquivalentObjective'])
+                    decl = getattr(solver.problem, '_verif_declared', None)
+                    own = z3.Sum([w_ * t_ for t_, w_ in decl]) if decl else \
+                        z3.Sum([o2.weight * o2._target for o2 in objs_decl if o2.name != 'MinimizeEquivalentObjective'])
                     s3 = base_check()
                     if s3.check() == z3.sat:
                         b2 = s3.model().eval(own, model_completion=True).as_long()
